@@ -9,7 +9,7 @@ open Lean
 
 namespace Driver.C20
 open Askar Askar.SecretBuf
-open Askar.SecretFmt (Alg Ty ErrCase LogSite Scenario FmtCfg)
+open Askar.SecretFmt (Alg Ty ErrCase LogSite Scenario FmtCfg ObsTy)
 
 /-- data spec `{"s": seed, "n": len}`: byte i = 0x80 + ((s + 37 i + 11 (i / 128)) mod 128) — every content byte has its
     top bit set, which is what the instrumented allocator looks for in released blocks -/
@@ -50,6 +50,7 @@ def parseOp (j : Json) : Option Op :=
   | "drop" => some (.drop (nat! j "i"))
   | "into_vec" => some (.intoVec (nat! j "i"))
   | "into_boxed" => some (.intoBoxed (nat! j "i"))
+  | "ffi_free" => some (.ffiFree (nat! j "i"))
   | _ => (parseBufOp j).map (.buf (nat! j "i"))
 
 def resStr : Res → String
@@ -63,7 +64,7 @@ def reportSlot (before : St) (after : St) : Op → Option RVec
   | .new _ | .clone _ => if after.slots.length > before.slots.length then after.slots.getLast? else none
   | .buf i _ => after.slots[i]?
   | .drop _ => none
-  | .intoVec i | .intoBoxed i => before.slots[i]?     -- the bytes handed to the caller
+  | .intoVec i | .intoBoxed i | .ffiFree i => before.slots[i]?     -- the bytes handed to the caller
 
 def eventJson : Event → Json
   | .alloc _ n => Json.arr #[.str "a", jnat n]
@@ -89,7 +90,7 @@ def runBuf (j : Json) : Json :=
           | _ => match reportSlot st r.1 op with
             | some s =>
               (match op with
-               | .intoVec _ | .intoBoxed _ => [("len", jnat s.len), ("v", jvalue s.data)]
+               | .intoVec _ | .intoBoxed _ | .ffiFree _ => [("len", jnat s.len), ("v", jvalue s.data)]
                | _ => bufJson diag s)
             | none => []
         go r.1 rest (acc.push (Json.mkObj ([("r", Json.str (resStr r.2))] ++ rep)))
@@ -137,13 +138,37 @@ def parseTy (s : String) : Option Ty :=
     | "bad_raw_key" => some (.error .badRawKey)
     | "wrong_pass_key" => some (.error .wrongPassKey)
     | "decrypt_bad_tag" => some (.error .decryptBadTag)
+    | "storage_garbage_file" => some (.error .storageGarbageFile)
+    | "top_garbage_file" => some (.error .topGarbageFile)
+    | "storage_on_directory" => some (.error .storageOnDirectory)
+    | "storage_missing_dir" => some (.error .storageMissingDir)
+    | "storage_unknown_scheme" => some (.error .storageUnknownScheme)
+    | "storage_bad_param" => some (.error .storageBadParam)
+    | "storage_kind_only" => some (.error .storageKindOnly)
+    | "crypto_jwk_garbage" => some (.error .cryptoJwkGarbage)
+    | "crypto_secret_len" => some (.error .cryptoSecretLen)
+    | "crypto_bad_tag" => some (.error .cryptoBadTag)
     | _ => none
+  | "Scan" => some .scan
+  | _ => none
+
+def parseObs (s : String) : Option ObsTy :=
+  match s with
+  | "Obs:SecretBytesAsHex" => some .secretBytesAsHex
+  | "Obs:EntryTagPlaintext" => some .entryTagPlaintext
+  | "Obs:EntryTagEncrypted" => some .entryTagEncrypted
+  | "Obs:EntryTags" => some .entryTags
+  | "Obs:TagFilter" => some .tagFilter
   | _ => none
 
 def runFmt (j : Json) : Json :=
-  match parseTy (str! j "ty") with
-  | some t => Json.mkObj [("leak", .bool (SecretFmt.leaky FmtCfg.current t))]
-  | none => jerr "unknown type"
+  match parseObs (str! j "ty") with
+  | some o => Json.mkObj [("leak", .bool (SecretFmt.obsLeaky o)), ("obs", .bool true)]
+  | none =>
+    match parseTy (str! j "ty") with
+    | some (.error c) => Json.mkObj [("leak", .bool (SecretFmt.leaky FmtCfg.current (.error c))), ("chain", jnat c.chain)]
+    | some t => Json.mkObj [("leak", .bool (SecretFmt.leaky FmtCfg.current t))]
+    | none => jerr "unknown type"
 
 def stepsJson (l : List (String × Bool)) : Json :=
   Json.arr (l.map fun (s, b) => Json.arr #[.str s, .bool b]).toArray
@@ -183,8 +208,62 @@ def runKey (j : Json) : Json :=
     let blk : SecretFmt.KeyBlock := ⟨[1, 2, 3]⟩
     Json.mkObj [("dirty_release", .bool ((SecretFmt.dropKey blk).cells.any (· != 0)))]
 
+/-! ### the C API -/
+
+/-- the error chains the C API's JSON is made of are label chains (message = literal text): the model's verdict on the JSON -/
+def labelChain : List SecretFmt.ErrLink :=
+  [⟨"Backend error", some [.text "Error connecting to database pool"]⟩, ⟨"sqlx", some [.text "error returned from database"]⟩]
+
+def errorJsonLeak : Bool := (SecretFmt.errJson labelChain).any SecretFmt.Tok.isSecret
+
+/-- one exported buffer of `len` bytes (`model_input.lens`): whatever capacity the `SecretBytes` had inside the library (`slack`
+    stale cells), `from_secret` + `askar_buffer_free` release exactly `len` cells, all wiped — or nothing for an empty buffer -/
+def ffiBuf (len slack : Nat) : Json × Bool :=
+  let s : RVec := ⟨1, (List.range len).map (fun i => UInt8.ofNat (128 + i % 128)), List.replicate slack (some 0xAA)⟩
+  let h0 : Heap := ⟨2, []⟩
+  let r := ffiFromSecret Params.std s h0
+  let h := ffiBufferFree r.1 r.2
+  -- the release of the exported block is the newest event (if any event is newer than the export)
+  let freed : Option (List Cell) :=
+    if h.log.length > r.2.log.length then (match h.log.head? with | some (.free _ cs) => some cs | _ => none) else none
+  let dirtyAny := h.log.any fun e => match e with | .free _ cs => dirty cs | .realloc _ cs _ => dirty cs | _ => false
+  (Json.mkObj [("len", jnat r.1.len),
+               ("freed", match freed with | some cs => jnat cs.length | none => Json.null),
+               ("nonzero", jnat (match freed with | some cs => (cs.filter (·.isSome)).length | none => 0))], dirtyAny)
+
+def runFfi (j : Json) : Json :=
+  let lens := (arr! j "lens").map fun v => v.getNat?.toOption.getD 0
+  let slack := nat! j "n" % 7
+  let rs := lens.map fun n => ffiBuf n slack
+  Json.mkObj [("bufs", Json.arr (rs.map (·.1)).toArray), ("dirty_release", .bool (rs.any (·.2))), ("error_json_leak", .bool errorJsonLeak)]
+
+def ffiLifecycleSteps : List (String × Bool) :=
+  [("provision", true), ("insert", true), ("insert-duplicate", false), ("fetch", true), ("fetch_all", true), ("count", true),
+   ("replace-missing", false), ("key-ops", true), ("aead-wrong-aad", false), ("key-import-short", false),
+   ("key-import-truncated-jwk", false), ("key-import-mismatched-jwk", false), ("fetch_all_keys", true), ("scan", true),
+   ("remove_all", true), ("rekey", true), ("open", true), ("open-old-key", false), ("open-wrong-pass", false),
+   ("open-missing", false), ("remove", true)]
+
+def runFfiLog (j : Json) : Json :=
+  let sc := str! j "scenario"
+  let head := (sc.splitOn ":").headD ""
+  match head with
+  | "lifecycle" =>
+    let s : Scenario := ⟨[.ffiLabel, .anyOptions, .label], false⟩
+    Json.mkObj [("leak", .bool (s.leaks FmtCfg.current)), ("error_json_leak", .bool errorJsonLeak), ("steps", stepsJson ffiLifecycleSteps)]
+  | "uri" =>
+    let s : Scenario := ⟨[.ffiLabel, .anyOptions, .label], true⟩
+    -- nothing connects; removing a SQLite file that does not exist is `Ok(false)` (a successful call)
+    let steps := (["postgres", "postgres-encoded", "postgres-query-encoded", "sqlite-query-encoded", "unknown-scheme", "sqlite", "bad-percent"].map
+      fun which => ["open", "provision", "remove"].map fun entry =>
+        (entry ++ "-" ++ which, entry == "remove" && (which.startsWith "sqlite" || which == "bad-percent"))).flatten
+    Json.mkObj [("leak", .bool (s.leaks FmtCfg.current)), ("error_json_leak", .bool errorJsonLeak), ("steps", stepsJson steps)]
+  | _ => jerr "unknown scenario"
+
 def runCase (j : Json) : Json :=
   match str! j "kind" with
+  | "c20:ffi" => runFfi j
+  | "c20:ffilog" => runFfiLog j
   | "c20:buf" => runBuf j
   | "c20:fmt" => runFmt j
   | "c20:log" => runLog j
